@@ -100,5 +100,14 @@ def definition(d):
 PREAMBLE = ["D1 ::= INTEGER (0..255)", "E1 ::= ENUMERATED { v1, v2, v3 }", "v2 INTEGER ::= 3"]
 
 
+# comment shapes between the definitions: none of their content may come back to life
+COMMENTS = ["/*/ C1 ::= NULL */", "/* a /* C2 ::= NULL */ b */", "-- C3 ::= NULL", "/*\n-- C4 ::= NULL */", "/**/ /***/ /*/**/*/"]
+
+
 def module(name, defs, header="DEFINITIONS AUTOMATIC TAGS ::="):
-    return "%s %s BEGIN\n%s\n%s\nEND\n" % (name, header, "\n".join(PREAMBLE), "\n".join(definition(d) for d in defs))
+    body = []
+    for i, d in enumerate(defs):
+        if i % 7 == 0:
+            body.append(COMMENTS[(i // 7) % len(COMMENTS)])
+        body.append(definition(d))
+    return "%s %s BEGIN\n%s\n%s\nEND\n" % (name, header, "\n".join(PREAMBLE), "\n".join(body))
